@@ -45,6 +45,17 @@ class Check(object):
         self.obligations = []     # dicts {rule, construct, fact, loc, ok}
         self.stats = {}
         self.rules_run = []
+        self.floor_failures = []
+        self.analysis_error = None
+
+    def finish(self):
+        """called after all rules ran: a floor failure without any finding is an analysis error"""
+        from .model import AnalysisError
+        if self.floor_failures:
+            if not self.findings:
+                raise AnalysisError(self.floor_failures[0])
+            if self.analysis_error is None:
+                self.analysis_error = AnalysisError(self.floor_failures[0])
 
     def ok(self, rule, construct, fact, loc=""):
         self.obligations.append({"rule": rule, "construct": construct, "fact": fact, "loc": loc, "ok": True})
@@ -69,8 +80,10 @@ class Check(object):
         if any(o["rule"] == rule and not o["ok"] for o in self.obligations):
             return    # the rule already reports a construct: that report stands
         if n < minimum:
-            raise AnalysisError("rule %s matched %d instance(s), floor is %d: the rule would pass vacuously"
-                                % (rule, n, minimum))
+            # deferred: evaluated by finish() once every rule has run, so that a violation found by a later
+            # rule is still reported (the floor failure then only marks the analysis as incomplete)
+            self.floor_failures.append("rule %s matched %d instance(s), floor is %d: the rule would pass vacuously"
+                                       % (rule, n, minimum))
 
     def stat(self, key, value):
         self.stats[key] = self.stats.get(key, 0) + value
